@@ -75,6 +75,9 @@ class Machine:
             evs.append(["extend", [["Noop", [args[0]]], ["DivMod", [args[0], args[1]]]]])
             evs.append(["extend", [["DivMod", [args[-1], args[0]]], ["Noop", [args[0]]]]])
         evs.append(["add", "Noop", [["i", len(s.ref)]], False])
+        if args:
+            # a good command followed by one that must be refused: the first one has happened, the index it used is rebound
+            evs.append(["extend", [["Noop", [args[0]]], ["Noop", [["i", len(s.ref)]]]]])
         for k in (1, 2):
             for combo in itertools.product(args[:3], repeat=k):
                 evs.append(["set_indexed_outputs", list(combo)])
@@ -193,7 +196,11 @@ class Machine:
                 if [n.idx for n in r[0][1]] != [n.idx for n in r[1][1]]:
                     fails.append((f"{kind}:nodes", f"{ev}: tracked builder added nodes {[n.idx for n in r[0][1]]}, explicit builder {[n.idx for n in r[1][1]]}"))
             elif r and r[0][0] == "exc":
-                s.done = True  # an IndexError may leave a half-added node behind: nothing is demanded about that state
+                partial = kind == "extend" and len(coms) == 2 and coms[1][1] == [["i", len(s.ref)]]
+                if not partial:
+                    s.done = True  # an IndexError may leave a half-added node behind: nothing is demanded about that state
+                # (a refused *second* command of an extend is different: its lookups fail before anything is added, and
+                # the first command has been carried out in both builders - the comparison below applies)
         elif kind == "set_indexed_outputs":
             r = both(lambda: t.set_indexed_outputs(*[self._resolve(s, a, "tracked") for a in ev[1]]), lambda: d.set_outputs(*[self._resolve(s, a, "twin") for a in ev[1]]))
             s.done = True
